@@ -208,6 +208,11 @@ mass_add_d(const struct mass_add_clo_s *clo)
 			/* no sed mode here */
 			dt_io_write(d, clo->ofmt, clo->z, '\n');
 		} else if (clo->sed_mode_p) {
+			if (prchunk_crlfp(clo->pctx)) {
+				/* put the \r back that the reader took */
+				line[llen++] = '\r';
+				line[llen] = '\n';
+			}
 			__io_write(line, llen + 1, stdout);
 		} else if (!clo->quietp) {
 			line[llen] = '\0';
